@@ -654,7 +654,11 @@ def run(ck):
     tie_ok, tie_info = ck.source_tie("DS.Props.SrcLattice")
     # the ADP state machine itself: model = symbolic execution of atom.py's getters and setters
     tie2_ok, tie2_info = ck.source_tie("DS.Props.SrcAtom")
+    # msdLat / msdCart (msd_agree, msd_iso): model = transliteration of the two methods (rfl)
+    tie3_ok, tie3_info = ck.source_tie("DS.Props.SrcMsd", groups=("msd",))
     nh = 200 if ck.tier == "quick" else 5000
+    if not (tie_ok and tie2_ok and tie3_ok):
+        nh *= 3      # a broken source tie widens the failing-input search
     maxops = 30 if ck.tier == "quick" else 60
     rng = ck.rng
     hists, lines, recs = [], [], []
@@ -741,6 +745,7 @@ def run(ck):
     witness_check(ck)
     ck.tie_verdict(tie_ok, tie_info, "lattice.py")
     ck.tie_verdict(tie2_ok, tie2_info, "atom.py")
+    ck.tie_verdict(tie3_ok, tie3_info, "atom.py msdLat / msdCart")
     if not ok and not ck.violations:
         ck.fail("lean-build", "Lean obligations of C09 no longer check: %r" % info["failed_modules"],
                 {"kind": "proof-obligation", "theorem": info["failed_modules"], "errors": info["errors"]}, no_failing_input=True)
